@@ -30,7 +30,7 @@ def split_tokens(text):
     return out
 
 
-def recase(text, mode, user_names):
+def recase(text, mode, user_names, rng=None):
     if mode == "keep":
         return text
     out = []
@@ -38,7 +38,11 @@ def recase(text, mode, user_names):
     while pos < len(text):
         m = lexer._TOKEN.match(text, pos)
         k, t = m.lastgroup, m.group(0)
-        if k == "id" and t not in user_names or k == "dot":
+        if mode == "names":
+            # the spelling of every OCCURRENCE of a user name is chosen on its own (Fortran names are case-insensitive)
+            if k == "id" and t in user_names:
+                t = rng.choice([t, t, t.upper(), t.lower(), t.capitalize()])
+        elif k == "id" and t not in user_names or k == "dot":
             t = t.upper() if mode == "upper" else t.lower()
         elif k == "num":
             head, sep, kind = t.partition("_")
@@ -156,7 +160,7 @@ def free_layout(stmts, rng, user_names, p_break=0.35, p_comment=0.25, p_join=0.2
             feat("semicolon_join")
             parts = []
             for k, g in enumerate(group):
-                t = recase(g.text, case, user_names)
+                t = recase(g.text, case, user_names, rng)
                 head = ("%d " % g.label if g.label is not None else "") + ("%s: " % g.name if g.name else "")
                 parts.append(head + t)
             line = ind + rng.choice(["; ", ";", " ; "]).join(parts)
@@ -177,7 +181,7 @@ def free_layout(stmts, rng, user_names, p_break=0.35, p_comment=0.25, p_join=0.2
         text = tighten(s.text) if rng.random() < p_tight else s.text
         if s.kind not in ("format", "end_block_data", "error_stop") and "in out" not in text and rng.random() < p_respace:
             text = respace(text, rng.choice(["tight", "wide"]), rng)
-        text = recase(text, case, user_names)
+        text = recase(text, case, user_names, rng)
         head = ("%d " % s.label if s.label is not None else "") + ("%s: " % s.name if s.name else "")
         toks = split_tokens(text)
         # choose break points: before token k (k >= 1), or inside a string token
